@@ -650,3 +650,125 @@ def agg_field(stmt, name):
         if f == name:
             return o
     return None
+
+
+# ---------------------------------------------------------------------------
+# Short-circuit boolean normalisation (DESIGN 3.9)
+
+def truth_table(body, atoms, max_steps=600):
+    """atoms: dict name -> block index of the call (or comparison) producing the atom's bool.
+    Folds the CFG into a truth table of the returned bool.  A branch on a value that is
+    neither an atom nor a constant is explored both ways (its outcome must not matter for a
+    given atom assignment, otherwise the result is 'ambiguous').
+    Returns (names, {assignment tuple (True/False/None = atom not evaluated) -> result})."""
+    names = sorted(atoms)
+    by_bb = {}
+    for n in names:
+        by_bb.setdefault(atoms[n], n)
+    from itertools import product
+    table = {}
+
+    def run_from(bb, env, used, assign, steps, out, visits):
+        while steps < max_steps:
+            steps += 1
+            visits[bb] = visits.get(bb, 0) + 1
+            if visits[bb] > 3:
+                out.add(('loop', frozenset(used)))
+                return
+            blk = body.blocks[bb]
+            for s in blk['stmts']:
+                d = s['p']
+                if d[1]:
+                    continue
+                rv = s['rv']
+                v = 'unknown'
+                if rv['k'] == 'use':
+                    cb = const_bool(rv['op'])
+                    if cb is not None:
+                        v = cb
+                    else:
+                        pl = op_place(rv['op'])
+                        if pl is not None and not pl[1]:
+                            v = env.get(pl[0], 'unknown')
+                elif rv['k'] == 'un' and rv['op'] == 'Not':
+                    l = op_local(rv['a'])
+                    x = env.get(l, 'unknown') if l is not None else 'unknown'
+                    v = (not x) if isinstance(x, bool) else 'unknown'
+                elif rv['k'] == 'bin' and bb in by_bb and rv['op'] in CMP_BIN:
+                    v = assign[by_bb[bb]]
+                    used = used | {by_bb[bb]}
+                env[d[0]] = v
+            t = blk['term']
+            k = t['k']
+            if k == 'ret':
+                out.add((env.get(0, 'unknown'), frozenset(used)))
+                return
+            if k == 'goto':
+                bb = t['t']
+            elif k in ('call', 'drop', 'assert'):
+                if k == 'call':
+                    if bb in by_bb:
+                        env[t['dest'][0]] = assign[by_bb[bb]]
+                        used = used | {by_bb[bb]}
+                    else:
+                        env[t['dest'][0]] = 'unknown'
+                if t['ret'] is None:
+                    out.add(('diverges', frozenset(used)))
+                    return
+                bb = t['ret']
+            elif k == 'switch':
+                l = op_local(t['op'])
+                x = env.get(l, 'unknown')
+                tt, ft = switch_targets_bool(t)
+                if isinstance(x, bool) and tt is not None:
+                    bb = tt if x else ft
+                else:
+                    for tgt in dict.fromkeys(t['tgts']):
+                        if body.blocks[tgt]['term']['k'] == 'unreach':
+                            continue
+                        run_from(tgt, dict(env), used, assign, steps, out, dict(visits))
+                    return
+            else:
+                out.add(('diverges', frozenset(used)))
+                return
+        out.add(('too-long', frozenset(used)))
+
+    for vals in product([False, True], repeat=len(names)):
+        assign = dict(zip(names, vals))
+        out = set()
+        run_from(0, {}, frozenset(), assign, 0, out, {})
+        results = {r for r, _ in out}
+        used_all = set()
+        for _, u in out:
+            used_all |= u
+        key = tuple(assign[n] if n in used_all else None for n in names)
+        res = results.pop() if len(results) == 1 else 'ambiguous:%s' % sorted(map(str, results | set()))
+        if key in table and table[key] != res:
+            res = 'ambiguous'
+        table[key] = res
+    return names, table
+
+
+def table_equals(tt, fn):
+    """tt = (names, table) from truth_table; fn(dict name->bool|None) -> expected bool.
+    The expectation is evaluated with short-circuit awareness: atoms that were not
+    evaluated are passed as None and fn must not need them."""
+    if tt is None:
+        return False, 'not a pure boolean function of the named atoms'
+    names, table = tt
+
+    class _A(dict):
+        def __getitem__(self, k):
+            v = dict.__getitem__(self, k)
+            if v is None:
+                raise TypeError(k)
+            return v
+    for key, res in table.items():
+        a = _A(zip(names, key))
+        try:
+            exp = fn(a)
+        except TypeError:
+            return False, 'an atom needed by the reference was not evaluated on path %s' % a
+        if res != exp:
+            return False, 'for %s the code yields %s, the reference %s' % ({k: v for k, v in a.items() if v is not None}, res, exp)
+    return True, '%d rows' % len(table)
